@@ -290,6 +290,18 @@ impl ZonedDateTime {
         let start = self.tz.get_iso_datetime_for(&self.instant, provider)?;
         // 3. Let endDateTime be GetISODateTimeFor(timeZone, ns2).
         let end = self.tz.get_iso_datetime_for(&other.instant, provider)?;
+        // If CompareISODate(startDateTime.[[ISODate]], endDateTime.[[ISODate]]) = 0, then
+        if start.date == end.date {
+            // a. Let timeDuration be TimeDurationFromEpochNanosecondsDifference(ns2, ns1).
+            // b. Return CombineDateAndTimeDuration(ZeroDateDuration(), timeDuration).
+            // NOTE: on a day with a repeated hour the wall-clock order of the two instants can be
+            // the reverse of their exact order; there is no whole day between them either way.
+            let time_duration = NormalizedTimeDuration::from_nanosecond_difference(
+                other.epoch_nanoseconds().as_i128(),
+                self.epoch_nanoseconds().as_i128(),
+            )?;
+            return NormalizedDurationRecord::new(crate::DateDuration::default(), time_duration);
+        }
         // 4. If ns2 - ns1 < 0, let sign be -1; else let sign be 1.
         let sign = if other.epoch_nanoseconds().as_i128() - self.epoch_nanoseconds().as_i128() < 0 {
             Sign::Negative
